@@ -124,7 +124,7 @@ chk(
 chk(
     "C10",
     "bounded-exhaustive enumeration of every value the splitter produces for frame token sequences + seeded Hypothesis grammar values; lexical strip oracle, round trip (reuse), re-parse round trip through the splitter, integer-rule table",
-    "Exploration: every distinct field and @string value that the splitter yields for <= 5 (quick) / <= 6 (thorough) frame tokens (nested braces, quotes in braces, concatenations, empty and single-character values such as a lone quote), random grammar values, ints and digit strings x all 8 AddEnclosing option sets x numeric / other field keys x in-place / copy: removal must equal the lexical one-layer strip with the kind recorded; reuse must restore the value exactly; for brace-balanced contents not ending in a backslash the default enclosing must re-parse (bare Splitter) as one field / string with that text and content; the integer rule must hold and nothing may raise.",
+    "Exploration: every distinct field and @string value that the splitter yields for <= 5 (quick) / <= 6 (thorough) frame tokens (nested braces, quotes in braces, concatenations, empty and single-character values such as a lone quote), random grammar values, ints and digit strings x all 8 AddEnclosing option sets x numeric / other field keys x in-place / copy: removal must equal the lexical one-layer strip with the kind recorded; reuse must restore the value exactly; for brace-balanced contents not ending in a backslash the default enclosing must re-parse (bare Splitter) as one field / string with that text and content; the integer rule must hold and nothing may raise. Whole entries with 1-7 fields, also with a repeated field key (built through the model, or the inner entry of a duplicate-field block): every field compared by position. Known finding F-22 (repeated key, occurrences enclosed differently) is excluded by its exact shape only.",
     "Trusted: strip1()/balanced() in pbt/props/C10.py. Contents containing a block opener '@word{' are outside the re-parse domain (the splitter cannot produce them); non-ASCII digit strings are only required not to raise.",
     "DESIGN.md 4 C10",
 )
@@ -209,7 +209,7 @@ def main():
             )
         ],
         checks=checks,
-        notes="History independence: for half of the cases of C10-C13, C15-C18 the middleware instance has already transformed an unrelated library (libgen.maybe_preuse). Runner: ./check <id> --tier quick|thorough ; VERIF_SEED and VERIF_TIER honoured; exit 0/1/2 as described in DESIGN.md 2.4. Known findings: /verif/known_findings.json. VERIF_REPO=<dir> points the checks at a scratch copy of the repository (used only for sensitivity runs; default /repo).",
+        notes="History independence: for half of the cases of C10-C13, C15-C18 the middleware instance has already transformed an unrelated library (libgen.maybe_preuse). Runner: ./check <id> --tier quick|thorough ; VERIF_SEED and VERIF_TIER honoured; exit 0/1/2 as described in DESIGN.md 2.4. Size boundaries: deterministic large cases (documents of 130-4200 blocks, entries of 1100 fields, 1100 nested braces, name lists of 4200 persons, histories of 1100 operations; evidence class large-*). Known findings: /verif/known_findings.json. VERIF_REPO=<dir> points the checks at a scratch copy of the repository (used only for sensitivity runs; default /repo).",
         not_applicable=[dict(property_id=p, reason=NOT_YET) for p in ALL if p not in CHECKS],
     )
     path = os.path.join(HERE, "MANIFEST.json")
